@@ -12,7 +12,6 @@ open DendroModel
 inductive Stop where
   | parse (e : PErr)
   | internal (w : String)       -- a loop of the model asked to continue without having consumed input (`iter`); `nexus_never_internal` shows it unreachable
-  | unmodelled (w : String)     -- construct outside the modelled fragment (no verdict is claimed)
 
 abbrev R := Except Stop
 
@@ -66,6 +65,9 @@ structure RS where
   added : Nat := 0                        -- len(states_to_add)
   multi : List Char := []                 -- multistate_tokens joined
   terminated : Bool := false              -- BlockTerminatedException in flight
+  ptok : Option (List Char) := none       -- `token` of `_parse_positions`
+  positions : List Nat := []              -- `positions` of `_parse_positions`
+  charsets : List (Nat × List Char × Nat) := []   -- character subsets: (matrix, lower-cased name, number of positions)
 
 def RS.eof (s : RS) : Bool := s.rest.isEmpty
 
@@ -433,7 +435,7 @@ def symbolTest (sy : Syms) (s : RS) : R (Char → Bool) :=
   | .rna => pure (fun c => sy.rna.contains c)
   | .nucleotide => pure (fun c => sy.nuc.contains c)
   | .protein => pure (fun c => sy.prot.contains c)
-  | .continuous => .error (.unmodelled "continuous")
+  | .continuous => pure (fun _ => false)     -- `_read_continuous_character_values`: cells are numbers, see `readStates`
   | .standard =>
     let syms0 := if s.symbols.isEmpty then kw "0123456789" else s.symbols
     let syms := if !s.gap.isEmpty && isInfix s.gap syms0 then syms0.filter (fun c => [c] != s.gap) else syms0
@@ -442,15 +444,16 @@ def symbolTest (sy : Syms) (s : RS) : R (Char → Bool) :=
     if clash items then perr .nexus
     else pure (fun c => items.any (fun it => it == [c] || upper it == [c] || lower it == [c]))
 
-/-- `_read_character_states` for the row at position `r` of `rows` -/
+/-- `_read_character_states` / `_read_continuous_character_values` for the row at position `r` of `rows` -/
 def readStates (symOk : Char → Bool) (r : Nat) (s : RS) : R RS := do
   let nchar := s.nchar.getD 0
+  let cont := s.dataType == .continuous
   let s := if s.interleave then { s with cfg := { s.cfg with eol := true } } else s
   let s ← iter (fun s => do
     if rowLen s r + s.added ≥ nchar then pure (false, s)
     else
       let (t, s) ← requireTok s
-      if t == ['{'] || t == ['('] then
+      if !cont && (t == ['{'] || t == ['(']) then
         let closing := if t == ['{'] then ['}'] else [')']
         let s ← iter (fun s => do
           let (t, s) ← requireTok s
@@ -459,11 +462,18 @@ def readStates (symOk : Char → Bool) (r : Nat) (s : RS) : R RS := do
       else if t == ['\r'] || t == ['\n'] then
         pure (!s.interleave, s)
       else if t == semi.text then pure (false, { s with terminated := true })
+      else if cont then
+        -- continuous data: one number per token (`float(token)`)
+        (if pyFloatOk t then pure (true, { s with added := s.added + 1 }) else perr .nexus)
       else
         -- one state per character of the token
         let n ← cellsOf symOk s.matchc (s.first.map (rowLen s)) (rowLen s r) nchar t s.added
         pure (true, { s with added := n })) { s with added := 0, terminated := false }
-  if s.terminated then pure s      -- BlockTerminatedException propagates: nothing is added, the end-of-line mode stays
+  if s.terminated then
+    -- BlockTerminatedException propagates and the end-of-line mode stays; discrete states read so far are dropped
+    -- (`states_to_add`), continuous values have already been appended to the row
+    (if cont then pure { s with rows := s.rows.mapIdx (fun j x => if j == r then (x.1, x.2 + s.added) else x), added := 0 }
+     else pure s)
   else
     let s := if s.interleave then { s with cfg := { s.cfg with eol := false } } else s
     pure { s with rows := s.rows.mapIdx (fun j x => if j == r then (x.1, x.2 + s.added) else x), added := 0 }
@@ -554,8 +564,89 @@ def charsBlock (sy : Syms) (s : RS) : R RS := do
   skipToSemi s
 
 /-! ### SETS / ASSUMPTIONS / CODONS -/
+/-- `_get_char_matrix(title)`: position of the matrix among the matrices created so far -/
+def getCharMatrix (title : Option (List Char)) (s : RS) : R Nat :=
+  match title with
+  | none => if s.matTitles.length == 1 then pure 0 else perr .nexus      -- NoCharacterBlocksFoundError / LinkRequiredError
+  | some t =>
+    let found := (List.range s.matTitles.length).filter (fun j =>
+      match (s.matTitles[j]?).bind id with
+      | some l => upper l == upper t
+      | none => false)
+    match found with
+    | [j] => pure j
+    | _ => perr .nexus
+
+/-- `range(start, stop + 1, step)` restricted to positions `≤ max` -/
+def stepRange (start stop step max : Nat) : List Nat :=
+  ((List.range ((stop + 1 - start + step - 1) / step)).map (fun k => start + k * step)).filter (fun q => q ≤ max)
+
+/-- the part of `_parse_positions` after `start - `: the end of the range and an optional `\ step` -/
+def positionsRange (start max : Nat) (s : RS) : R (Bool × RS) := do
+  let (t2, s) ← nextTok s
+  match t2 with
+  | none => perr .nexus
+  | some t2 =>
+    if t2.isEmpty then perr .nexus
+    else if !(isDigitStr t2 || t2 == ['.']) then perr .nexus
+    else
+      let stop := if t2 == ['.'] then max else natOfDigits t2
+      let (t3, s) ← nextTok s
+      if truthy t3 && (t3 == some ['\\'] || t3 == some ['/']) then
+        let (t4, s) ← nextTok s
+        match t4 with
+        | none => perr .nexus
+        | some t4 =>
+          if t4.isEmpty then perr .nexus
+          else if isDigitStr t4 && natOfDigits t4 > 0 then
+            let (t5, s) ← nextTok s
+            pure (true, { s with ptok := t5, positions := s.positions ++ stepRange start stop (natOfDigits t4) max })
+          else perr .nexus
+      else pure (true, { s with ptok := t3, positions := s.positions ++ stepRange start stop 1 max })
+
+/-- `_parse_positions()` (repaired: a token that is neither a number nor ALL is an error; a step must be positive) -/
+def parsePositions (s : RS) : R RS := do
+  let max := s.nchar.getD 0      -- a matrix exists, so NCHAR has been declared (Python would raise TypeError on None)
+  let (t, s) ← nextTok { s with cfg := { s.cfg with hyphen := true }, positions := [] }
+  if s.eof || !truthy t then perr .nexus else
+  let s ← iter (fun s => do
+    match s.ptok with
+    | none => pure (false, s)
+    | some token =>
+      if token == semi.text || token == comma.text || s.eof then pure (false, s)
+      else if token.isEmpty then pure (false, s)
+      else if upper token == kw "ALL" then pure (false, { s with positions := (List.range max).map (· + 1) })
+      else if isDigitStr token then
+        let start := natOfDigits token
+        let (t, s) ← nextTok s
+        match t with
+        | none => pure (true, { s with ptok := none, positions := s.positions ++ [start] })
+        | some t1 =>
+          if t1.isEmpty then pure (true, { s with ptok := some t1, positions := s.positions ++ [start] })
+          else if t1 == comma.text || isDigitStr t1 || t1 == semi.text then
+            pure (true, { s with ptok := some t1, positions := s.positions ++ [start] })
+          else if t1 == ['-'] then positionsRange start max s
+          else perr .nexus
+      else perr .nexus) { s with ptok := t }
+  let s := { s with cfg := { s.cfg with hyphen := false }, positions := dedupSorted (sortNat s.positions) }
+  if s.positions.any (fun q => q > max) then perr .nexus else pure s
+
+/-- `_parse_charset_statement` -/
+def parseCharset (s : RS) : R RS := do
+  let m ← getCharMatrix s.linkTitle s
+  let (t, s) ← nextTok s
+  if s.eof || !truthy t then perr .nexus else
+  let name := t.getD []
+  let (t, s) ← nextTok s
+  if !truthy t then perr .nexus
+  else if t != some ['='] then perr .nexus
+  else
+    let s ← parsePositions s
+    if s.charsets.any (fun c => c.1 == m && c.2.1 == lower name) then perr .nexus     -- "Character subset … already defined"
+    else pure { s with charsets := s.charsets ++ [(m, lower name, s.positions.length)] }
+
 def setsBlock (s : RS) : R RS := do
-  let s ← skipToSemi s
+  let s ← skipToSemi { s with linkTitle := none }
   let s ← iter (fun s => do
     if isEnd s.btok || s.eof || s.btok.isNone then pure (false, s)
     else
@@ -566,8 +657,10 @@ def setsBlock (s : RS) : R RS := do
         pure (true, s)
       else if t == some (kw "LINK") then do
         let s ← parseLink s
+        pure (true, { s with linkTitle := s.linkChars })
+      else if t == some (kw "CHARSET") then do
+        let s ← parseCharset s
         pure (true, s)
-      else if t == some (kw "CHARSET") then .error (.unmodelled "CHARSET")
       else if t == some (kw "BEGIN") then perr .nexus
       else pure (true, s)) s
   skipToSemi s
